@@ -32,7 +32,9 @@ ObsQuote == /\ phase = "build" /\ E.e = "quote" /\ E.exc = ""
 ObsParse == /\ phase = "tok" /\ E.e = "parse" /\ E.exc = ""
             /\ E.desc = desc
             /\ Holds(cfg, text, E.args, E.kw)
-            /\ (Strict => LET r == RefParse(desc) IN ~r.err /\ r.args = E.args /\ r.kw = E.kw)
+            /\ (Strict => LET r == RefParse(desc) IN
+                           /\ ~r.err /\ r.kw = E.kw
+                           /\ SubSeq(r.args, 2 - cfg.off, Len(r.args)) = E.args)   \* off = 0: the prefix is not handed on
             /\ phase' = "done"
             /\ UNCHANGED <<cfg, text, desc, pos, m>>
 
